@@ -36,6 +36,10 @@ pub mod verif_std {
     pub broadcast proof fn axiom_min_usize(a: usize, b: usize)
         ensures #[trigger] spec_min(a, b) == (if a <= b { a } else { b }),
     {}
+    // std integer helper a refactoring of the halving rule may reach for (exact std semantics)
+    pub assume_specification [usize::div_ceil] (a: usize, b: usize) -> (r: usize)
+        requires b > 0,
+        ensures r as int == (a as int + b as int - 1) / (b as int);
     // ASSUMED: Option<&T>::copied copies the referent.
     pub assume_specification<'a, T> [std::option::Option::<&T>::copied] (_0: std::option::Option<&'a T>) -> (r: std::option::Option<T>)
         where T: std::marker::Copy,
